@@ -45,6 +45,7 @@ func c16Scenarios(tier string) []*Scenario {
 	}
 	out = append(out, &Scenario{Name: "state-machine/second-cer", Seq: c16SecondCER})
 	out = append(out, &Scenario{Name: "unhandled-requests", Seq: c16Unhandled})
+	out = append(out, &Scenario{Name: "unhandled-requests/multistream", Seq: c16UnhandledStream})
 	out = append(out, &Scenario{Name: "state-machine/client-side-dwa", Seq: c16ClientDWA})
 	out = append(out, &Scenario{Name: "streams/handler-answer", Seq: c16Streams})
 	out = append(out, &Scenario{Name: "streams/deferred-answer", Seq: c16Deferred})
@@ -759,6 +760,84 @@ func c16Unhandled(r *SeqResult) {
 	}
 	if r.Sample == "" {
 		r.Sample = "unhandled STR / CCR / RAR / undefined command, P bit set and clear, on a bare ServeMux and on a state machine after the handshake: whatever comes back must mirror the request"
+	}
+}
+
+// c16UnhandledStream: the same question on a multistream association: a request nobody handles (a
+// defined command without a handler, a command the dictionary does not define) arrives on stream s;
+// whatever the library writes in response mirrors the request and goes out on stream s.
+func c16UnhandledStream(r *SeqResult) {
+	for _, cmd := range [][2]uint32{{275, 0}, {272, 4}, {8388608, 7}, {999, 0}} {
+		for _, flags := range []uint8{0x80, 0xC0} {
+			for _, stream := range []uint16{0, 1, 5, 65535} {
+				for _, pin := range []bool{false, true} {
+					cmd, flags, stream, pin := cmd, flags, stream, pin
+					hbh := 0x1000 + uint32(stream)
+					var be *vnet.SCTP
+					s := vs.Run(nil, false, 5*time.Second, false, func() {
+						be = vnet.NewSCTP("US")
+						mux := diam.NewServeMux()
+						mux.HandleFunc("DWR", func(c diam.Conn, m *diam.Message) { m.Answer(2001).WriteTo(c) })
+						vs.GoNamed("reports", true, func() {
+							for {
+								if _, ok := mux.ErrorReports().Recv2(); !ok {
+									return
+								}
+							}
+						})
+						dc, err := diam.NewConn(diam.NewSCTPConnBackend(be), "peer", mux, dict.Default)
+						if err != nil {
+							return
+						}
+						if pin {
+							if mw, ok := dc.(diam.MultistreamWriter); ok {
+								mw.SetWriterStream(uint(stream) + 3)
+							}
+						}
+						be.Deliver(stream, refcodec.EncodeMessage(refcodec.Header{Version: 1, Flags: flags, Code: cmd[0], App: cmd[1], HbH: hbh, E2E: 0x55}, []refcodec.Node{ident(264, "c"), ident(296, "r")}))
+						be.PeerEOF()
+					})
+					s.Teardown()
+					r.Cases++
+					r.Distinct++
+					if r.Violation != "" {
+						continue
+					}
+					v := ""
+					var all []byte
+					for i, w := range be.Writes {
+						if w.Stream != stream {
+							v = fmt.Sprintf("write %d of the library's response (%d bytes) went to stream %d", i, len(w.Data), w.Stream)
+							break
+						}
+						all = append(all, w.Data...)
+					}
+					for v == "" && len(all) > 0 {
+						a, err := refcodec.DecodeHeader(all)
+						if err != nil || int(a.Length) > len(all) || a.Length < 20 {
+							v = "the bytes written are not a sequence of messages"
+							break
+						}
+						switch {
+						case a.Flags&0x80 != 0:
+							v = fmt.Sprintf("the library sent a request (command %d) of its own", a.Code)
+						case a.Code != cmd[0] || a.App != cmd[1] || a.HbH != hbh || a.E2E != 0x55:
+							v = fmt.Sprintf("answer header {code %d app %d ids %#x/%#x} does not mirror the request", a.Code, a.App, a.HbH, a.E2E)
+						case a.Flags&0x40 != flags&0x40:
+							v = fmt.Sprintf("request flags %#x, answer flags %#x: the proxiable bit changed", flags, a.Flags)
+						}
+						all = all[a.Length:]
+					}
+					if p := s.Panics(); len(p) > 0 && v == "" {
+						v = "panic: " + strings.Join(p, "; ")
+					}
+					if v != "" {
+						r.Violation = fmt.Sprintf("multistream association, request for command %d (application %d) with flags %#x that nobody handles, arriving on stream %d (writer stream pinned by the application: %v): %s", cmd[0], cmd[1], flags, stream, pin, v)
+						r.Case = map[string]interface{}{"cmd": cmd, "flags": flags, "stream": stream, "pin": pin}
+					}
+				}
+			}
+		}
 	}
 }
 
